@@ -813,29 +813,87 @@ Definition num_eqb (a b : val) : bool :=
 (* np.isclose(a, b): |a-b| <= 1e-8 + 1e-5*|b| in binary64 *)
 Definition atol : real := real_of_bits 4487126258331716666.   (* 1e-08 *)
 Definition rtol : real := real_of_bits 4532020583610935537.   (* 1e-05 *)
-Definition isclose (a b : val) : bool :=
-  match toR a, toR b with
-  | Some x, Some y =>
-      SFeqb x y || SFleb (SFabs (rsub x y)) (radd atol (rmul rtol (SFabs y)))
-  | _, _ => false
+Definition isclose_gen (ints_exact : bool) (a b : val) : bool :=
+  match a, b with
+  | VI x, VI y => if ints_exact then x =? y else
+      (let x' := rofZ x in let y' := rofZ y in SFeqb x' y' || SFleb (SFabs (rsub x' y')) (radd atol (rmul rtol (SFabs y'))))
+  | _, _ =>
+      match toR a, toR b with
+      | Some x, Some y => SFeqb x y || SFleb (SFabs (rsub x y)) (radd atol (rmul rtol (SFabs y)))
+      | _, _ => false
+      end
+  end.
+(* kg_equal_ints_exact: the fix: commit compares two integers with == before np.isclose *)
+Definition isclose := isclose_gen kg_equal_ints_exact.
+
+(* ---- the in-memory representation of a list, as far as kg_equal consults it ----
+   RN = non-object ndarray (only possible for a rectangular numeric value), RO = 1-D object ndarray of its members
+   (each with its own representation: a slice of a mixed list keeps row arrays inside an object array), RA = not an array *)
+Inductive rep := RA | RN | RO (members : list rep).
+
+Definition row_rep (x : val) : rep := match x with VL _ => RN | _ => RA end.
+Definition member_reps (v : val) (r : rep) : list rep :=
+  match v, r with
+  | VL l, RO rs => rs
+  | VL l, _ => map row_rep l
+  | _, _ => []
+  end.
+Definition rep_shape (v : val) (r : rep) : option (list nat) :=
+  match v, r with
+  | VL l, RN => rshape v
+  | VL l, RO _ => Some [List.length l]
+  | _, _ => None
+  end.
+Fixpoint valid_rep (v : val) (r : rep) {struct r} : bool :=
+  match r with
+  | RA => negb (is_arr v)
+  | RN => is_rect v
+  | RO rs =>
+      match v with
+      | VL l => (fix go (rs : list rep) (l : list val) {struct rs} : bool :=
+                   match rs, l with
+                   | [], [] => true
+                   | r' :: rs', x :: l' => valid_rep x r' && go rs' l'
+                   | _, _ => false
+                   end) rs l
+      | _ => false
+      end
+  end.
+(* what kg_asarray builds for a literal *)
+Fixpoint canon_rep (v : val) : rep :=
+  match v with
+  | VL l => if is_rect v then RN else RO (map canon_rep l)
+  | _ => RA
   end.
 
-(* BackendProvider.kg_equal *)
-Fixpoint kg_equal (fuel : nat) (a b : val) : result bool :=
+(* all(self.kg_equal(x, y) for x, y in zip(a, b)) *)
+Section EqLoop.
+  Context (eqf : val -> rep -> val -> rep -> result bool).
+  Fixpoint eq_loop (la : list val) (ras : list rep) (lb : list val) (rbs : list rep) : result bool :=
+    match la, ras, lb, rbs with
+    | x :: la', rx :: ras', y :: lb', ry :: rbs' =>
+        bind (eqf x rx y ry) (fun e => if e then eq_loop la' ras' lb' rbs' else Ok false)
+    | _, _, _, _ => Ok true
+    end.
+End EqLoop.
+
+(* BackendProvider.kg_equal.  shape_exit: an early `a.shape != b.shape -> False` (absent in the pinned code; the
+   translator pins its absence) *)
+Fixpoint kg_equal_rep (shape_exit : bool) (fuel : nat) (a : val) (ra : rep) (b : val) (rb : rep) : result bool :=
   match fuel with
   | O => NoFuel
   | S f' =>
       match a, b with
       | VL la, VL lb =>
-          if is_rect a && is_rect b then
-            (* np.array_equal: shapes and values, exact *)
-            Ok (shape_eqb (rshape a) (rshape b) && list_eqb num_eqb (np_flat a) (np_flat b))
-          else if negb (List.length la =? List.length lb)%nat then Ok false
-          else (fix go (la lb : list val) : result bool :=
-                  match la, lb with
-                  | x :: la', y :: lb' => bind (kg_equal f' x y) (fun e => if e then go la' lb' else Ok false)
-                  | _, _ => Ok true
-                  end) la lb
+          if shape_exit && negb (shape_eqb (rep_shape a ra) (rep_shape b rb)) then Ok false else
+          match ra, rb with
+          | RN, RN =>
+              (* np.array_equal: shapes and values, exact *)
+              Ok (shape_eqb (rshape a) (rshape b) && list_eqb num_eqb (np_flat a) (np_flat b))
+          | _, _ =>
+              if negb (List.length la =? List.length lb)%nat then Ok false
+              else eq_loop (kg_equal_rep shape_exit f') la (member_reps a ra) lb (member_reps b rb)
+          end
       | VL _, _ | _, VL _ => Ok false
       | VU, VU => Ok true
       | VU, _ | _, VU => Ok false
@@ -844,6 +902,9 @@ Fixpoint kg_equal (fuel : nat) (a b : val) : result bool :=
           else match sc_equal a b with Ok (VI 1) => Ok true | Ok _ => Ok false | _ => Unmod end
       end
   end.
+
+Definition kg_equal (fuel : nat) (a b : val) : result bool :=
+  kg_equal_rep (negb kg_equal_no_shape_exit) fuel a (canon_rep a) b (canon_rep b).
 
 Definition m_match (a b : val) : res :=
   bind (kg_equal (fuel2 a b) a b) (fun e => Ok (b2v e)).
